@@ -125,27 +125,32 @@ def DType.isDatetimeLike : DType → Bool
   | .M8 | .m8 => true
   | _ => false
 
-/-- `requires_numeric` (core.py 2710-2716); `engFlox` ⇔ the `engine=` argument is literally `"flox"` -/
+/-- `requires_numeric` in `groupby_reduce`; `engFlox` ⇔ the `engine=` argument is literally `"flox"` -/
 def requiresNumeric (f : Func) (engFlox : Bool) : Bool :=
   (f ≠ .count && f ≠ .any_ && f ≠ .all_ && !f.isFirstLast) || (f = .count && !engFlox)
 
-/-- `min_count_` (core.py 2772-2778) for a 1-D `by`: `minCount = none` ⇔ argument not given -/
+/-- `min_count_` in `groupby_reduce` for a 1-D `by`: `minCount = none` ⇔ argument not given -/
 def resolveMinCount (minCount : Option Nat) (fill : FillK) (expectedGiven : Bool) : Nat :=
   match minCount with
   | some m => m
   | none => if fill ≠ .unset && expectedGiven then 1 else 0
 
+/-- `if _is_arg_reduction(func) and dtype is not None and np.dtype(dtype).kind not in "iu": raise ValueError` -/
+def argFloatRefused (f : Func) (user : UserD) : Bool :=
+  f.isArg && (user = .f32 || user = .f64)
+
 /-- the dtype `groupby_reduce` gives its result, as a function of what the code looks at.
     `rowsOf` is the regenerated `_initialize_aggregation` table. `Except` carries the exception class. -/
 def apiDtype (rowsOf : DTable) (f : Func) (d : DType) (user : UserD) (fill : FillK) (mcPos : Bool)
     (engFlox : Bool) : Except String DType :=
-  -- 2646-2647: bool arrays become int for everything but any / all
+  if argFloatRefused f user then .error "ValueError" else
+  -- `is_bool_array`: bool arrays become int for everything but any / all
   let isBoolArray := d = .bool && !f.boolSupported
   let arr1 := if isBoolArray then DType.i64 else d
-  -- 2718-2722: datetime64 / timedelta64 are viewed as int64 when the reduction "requires numeric"
+  -- `requires_numeric`: datetime64 / timedelta64 are viewed as int64 when the reduction "requires numeric"
   let viewed := requiresNumeric f engFlox && arr1.isDatetimeLike
   let arr2 := if viewed then DType.i64 else arr1
-  -- 2781-2784: nansum / nanprod with a positive min_count and no fill get fill_value = NaN
+  -- nansum / nanprod with a positive min_count and no fill get fill_value = NaN
   let fill' := if mcPos && (f = .nansum || f = .nanprod) && fill = .unset then FillK.nan else fill
   match findDRow rowsOf f arr2 user fill' mcPos with
   | none => .error "no-row"
@@ -155,9 +160,10 @@ def apiDtype (rowsOf : DTable) (f : Func) (d : DType) (user : UserD) (fill : Fil
     | some init =>
       -- every plan ends with `astype(agg.dtype["final"])` (`_finalize_results`)
       let res := init.final
-      -- 2925-2926
-      let res := if isBoolArray && (f.isMinMax || f.isFirstLast) then DType.bool else res
-      -- 2929-2931
+      -- `if is_bool_array and (minmax or first/last) and dtype is None and (fill_value is None or
+      --  isinstance(fill_value, bool)): result = result.astype(bool)` — none of the grid's fills is a `bool` instance
+      let res := if isBoolArray && (f.isMinMax || f.isFirstLast) && user = .unset && fill = .unset then DType.bool else res
+      -- `if requires_numeric and func != "count": if is_npdatetime: result = result.astype(datetime_dtype)`
       let res := if viewed && f ≠ .count then d else res
       .ok res
 
@@ -264,18 +270,13 @@ def inDomain (f : Func) (d : DType) (user : UserD) (fill : FillK) : Bool :=
     ((f.isMinMax || f.isFirstLast || f = .count || f = .mean || f = .nanmean || f = .median || f = .nanmedian)
       && user = .unset && fill = .unset))
 
-/-- the cell in which flox is known to deviate: a bool input is cast back to bool after min / max / first / last,
-    whatever `dtype=` / `fill_value=` asked for (finding C11-F2) -/
-def boolSelectOverride (f : Func) (d : DType) (user : UserD) (fill : FillK) : Bool :=
-  d = .bool && (f.isMinMax || f.isFirstLast) && (user ≠ .unset || fill ≠ .unset)
-
-/-- a second deviation visible in the table only (`mode` cannot run in this environment): a bool input is converted to
+/-- the one deviation left, visible in the table only (`mode` cannot run in this environment): a bool input is converted to
     int for `mode` / `nanmode` and never cast back -/
 def boolModeDeviation (f : Func) (d : DType) (user : UserD) (fill : FillK) : Bool :=
   d = .bool && (f = .mode || f = .nanmode) && user = .unset && fill = .unset
 
 def knownDeviation (f : Func) (d : DType) (user : UserD) (fill : FillK) : Bool :=
-  boolSelectOverride f d user fill || boolModeDeviation f d user fill
+  boolModeDeviation f d user fill
 
 def lookup2 (t : List (DType × DType × Option DType)) (a b : DType) : Option DType :=
   (t.find? fun r => r.1 = a && r.2.1 = b).bind (·.2.2)
